@@ -9,7 +9,7 @@ import sympy as sp
 from ptstat import AnalysisError, algebra
 from ptstat.symval import SymObj, Phi, SymRaise, merge
 from ptstat.world import mass_sym
-from .common import world, eq, dict_eq, fsite, raises, folder, _s, public_entry_points
+from .common import world, eq, dict_eq, fsite, raises, folder, _s, public_entry_points, table_data
 from .C12 import action, action_site, _action_qual, action_tokens
 
 EXPLANATION = (
@@ -433,7 +433,12 @@ def _run(ctx):
     # fields of namedtuples defined in the package are "written" by the constructor
     for mod in ctx.src.modules.values():
         for node in ast.walk(mod.tree):
-            if isinstance(node, ast.Call) and ast.unparse(node.func).split(".")[-1] == "namedtuple" and len(node.args) >= 2:
+            fname_ = ast.unparse(node.func).split(".")[-1] if isinstance(node, ast.Call) else ""
+            if fname_ and fname_ != "namedtuple" and isinstance(node.func, ast.Name):
+                r_ = ctx.src.resolve(mod.name, fname_)            # an alias (from collections import namedtuple as _nt)
+                if r_ and r_[0] == "external" and r_[1].split(".")[-1] == "namedtuple":
+                    fname_ = "namedtuple"
+            if isinstance(node, ast.Call) and fname_ == "namedtuple" and len(node.args) >= 2:
                 fl = node.args[1]
                 if isinstance(fl, ast.Constant) and isinstance(fl.value, str):
                     written.update(fl.value.replace(",", " ").split())
@@ -469,7 +474,7 @@ def _run(ctx):
             raise AnalysisError(f"unit list '{kind}' not found in formula_grammar.rst")
         doc_units[kind] = set(re.findall(r"'([^']+)'", m.group(1)))
     for kind, const, base in (("mass", "MASS_UNITS", "g"), ("volume", "VOLUME_UNITS", "L"), ("length", "LENGTH_UNITS", "m")):
-        tab = F.const("formulas", const)
+        tab = table_data(ctx, "formulas", const)
         ctx.check(set(tab) == doc_units[kind], "R5", f"{const} has exactly the documented {kind} units",
                   f"code {sorted(tab)} vs documented {sorted(doc_units[kind])}", "periodictable/formulas.py " + const,
                   sample=sorted(tab))
@@ -479,9 +484,9 @@ def _run(ctx):
             ctx.check(ok, "R5", f"{const}['{key}'] is the SI prefix value", f"{const}[{key!r}] = {val}, expected {SI.get(pre)}",
                       "periodictable/formulas.py " + const)
     for const, parts in (("LENGTH_RE", ("LENGTH_UNITS",)), ("MASS_VOLUME_RE", ("MASS_UNITS", "VOLUME_UNITS"))):
-        rx = F.const("formulas", const)
+        rx = table_data(ctx, "formulas", const)
         alts = rx.strip("()").split("|")
-        want = [k for p in parts for k in F.const("formulas", p)]
+        want = [k for p in parts for k in table_data(ctx, "formulas", p)]
         ctx.check(sorted(alts) == sorted(want), "R5", f"{const} lists every unit of its tables", f"{alts} vs {want}",
                   "periodictable/formulas.py " + const)
         # ordered choice: no earlier alternative may be a proper prefix of a later one
